@@ -7,15 +7,15 @@ ROOT = os.path.dirname(os.path.dirname(os.path.abspath(__file__)))
 # id -> (technique, level text, level note, design ref)
 CLAIMED = {
  "C01": ("complete enumeration + seeded random search against an independent civil-calendar model (two formulations)",
-         "thorough tier enumerates all 2^32 day numbers and all 5.4e9 (year, month, day) triples of the stated domain against an independent model, so within the model's correctness the property is decided exhaustively; quick tier enumerates boundary windows (~6M days, ~3000 years x 462 triples), all 2^32 day numbers and 48 probe dates in every one of the 11.76M years, plus 2.5M random cases",
+         "thorough tier enumerates all 2^32 day numbers and all 5.4e9 (year, month, day) triples of the stated domain against an independent model, so within the model's correctness the property is decided exhaustively; quick tier enumerates boundary windows (~6M days, ~3000 years x 462 triples), all 2^32 day numbers and 48 probe dates in every one of the 11.76M years, plus 2.5M random cases; every refused triple is surrounded by valid constructions and reads (a refused call leaves nothing behind)",
          "trusts the reference calendar in harness/src/model/cal.rs (closed form cross-checked against successor stepping and anchors at every run) and Date::from_timestamp as the way to reach a day number",
          "DESIGN.md 4 C01"),
  "C02": ("complete enumeration (getters: all days; format fields: year-end fortnights of all years; setter: all years x N) + random search against model weekday / day-of-year / ISO week (two formulations) / quarter",
-         "thorough: weekday() and day_of_year() for all 2^32 days, the w/q/e/D format fields for Dec 25..Jan 7 of all 11.76M years plus 400-year cycles and range ends, set_day_of_year for every year x 0..=367; quick: windows of the same, every 5th day of the whole range for the getters, every 1009th day and the year-end fortnight of every 23rd year for the fields, plus 1M random cases. Generated-input search, exhaustive on the getter and setter sub-domains",
+         "thorough: weekday() and day_of_year() for all 2^32 days, the w/q/e/D format fields for Dec 25..Jan 7 of all 11.76M years plus 400-year cycles and range ends, set_day_of_year for every year x 0..=367; quick: windows of the same, every 5th day of the whole range for the getters, every 1009th day and the year-end fortnight of every 23rd year for the fields, plus 1M random cases, each day also formatted with three composed patterns (fields next to other date fields, with and without text between). Generated-input search, exhaustive on the getter and setter sub-domains",
          "trusts the ISO-8601 reading 'proleptic Gregorian, astronomical year numbering' for years <= 0 (both model formulations share it) and the documented symbol table for e/w/q/D",
          "DESIGN.md 4 C02"),
  "C03": ("seeded boundary-dense random search + enumeration around the range ends against an i128 time line",
-         "1M (quick) / 20M (thorough) timestamps over the full i64 domain and as many pairs of instants with independent offsets; every comparison operator and the sign of all *_since checked against the exact instants. Absence of counter-examples in N generated cases, not a proof",
+         "1M (quick) / 20M (thorough) timestamps over the full i64 domain and as many pairs of instants with independent offsets; every comparison operator and the sign of all *_since checked against the exact instants; one operand also taken through clear_until_* and compared with a freshly built equal value. Absence of counter-examples in N generated cases, not a proof",
          "trusts i128 arithmetic and the calendar model; set_offset is applied to values at least one day inside the range only (where every offset has a representable local reading)",
          "DESIGN.md 4 C03"),
  "C04": ("seeded boundary-dense random search against an i128 time line with a representability predicate, in two overflow profiles",
@@ -24,14 +24,14 @@ CLAIMED = {
          "DESIGN.md 4 C04"),
  "C05": ("complete product over year windows + seeded random search against model month arithmetic (two formulations)",
          "quick: all (month, boundary day) x N<=50 x 4 operations for years -12..12 and selected modern/century years plus 2M random cases; thorough: all (month, day) x N<=50 x 4 operations for years -800..800 plus 40M random cases with N up to 2^32-1 and range-end/era targeting",
-         "trusts the month model (astronomical month index; stepping formulation cross-checked for N<=50); receivers with a non-zero offset are judged for time-of-day/offset preservation only (zone of 'day of month' unspecified)",
+         "trusts the month model (astronomical month index; stepping formulation cross-checked for N<=50); receivers with a non-zero offset: time of day and offset preserved, and the result is the target under the UTC or the local reading of the date (must return where both are representable, must panic where neither is; in between unspecified)",
          "DESIGN.md 4 C05"),
  "C06": ("seeded random search over pairs of instants against the exact i128 difference; metamorphic add/since inversion",
          "1.5M (quick) / 30M (thorough) pairs and add-then-since cases on DateTime, Time and Date with independent offsets; truncation toward zero, antisymmetry, duration_between",
          "trusts i128 arithmetic",
          "DESIGN.md 4 C06"),
  "C07": ("complete pair enumeration inside multi-year windows (row-wise, with monotonicity) + random pairs; bracket oracle on the model's month arithmetic",
-         "every ordered pair of days in windows containing a leap year, the era boundary and BC leap years (quick ~3.5M pairs, thorough ~20M), DateTime pairs with three times of day on both sides, plus random pairs over the whole range; validity predicate (bracket), antisymmetry, monotonicity along rows",
+         "every ordered pair of days in windows containing a leap year, the era boundary and BC leap years (quick ~3.5M pairs, thorough ~20M), DateTime pairs with three times of day on both sides, plus random pairs over the whole range and every exact anniversary (and the day / nanosecond before it) of every start month of two (thorough: six) whole 400-year cycles x 1..=4812 months; validity predicate (bracket), antisymmetry, monotonicity along rows",
          "trusts the model's add_months (never the crate's); the bracket is judged only when the earlier value's day of month is <= 28, as the property states",
          "DESIGN.md 4 C07"),
  "C08": ("model-based stateful generation (operation histories on Time, invariant after every step) + enumeration of single operations from every second of the day",
